@@ -38,6 +38,17 @@ func F(x int) int { return 3*x + 1 }
 // DoVal is the value function i of the do scenarios returns.
 func DoVal(i int) int { return 10 + i }
 
+// FmapCh scenarios: an input item v >= NilFrom makes the channel-valued function return nil; otherwise it
+// returns the channel tagged v.  FCh is that function on tags (the Lean driver uses the same one).
+const NilFrom = 1000
+
+func FCh(v int) int {
+	if v >= NilFrom {
+		return 999999 // vsched.NilTag
+	}
+	return v
+}
+
 // Item j of input i.
 func Item(i, j int) int { return (i+1)*100 + j }
 
@@ -106,20 +117,21 @@ func (c Config) Key() string {
 // Variants of each system in the fixed package.
 var Variants = map[string][]string{
 	"fmap":     {"FmapChan"},
+	"fmapch":   {"FmapCh"},
 	"dup":      {"DupR", "DupB"},
 	"joincc":   {"JoinCC", "JoinCCb"},
 	"joinsc":   {"JoinSC", "JoinSCb"},
 	"joinsel":  {"JoinV2", "JoinV3"},
 	"pipeline": {"Pipeline"},
-	"do":       {"Do2", "Do3", "Do4"},
+	"do":       {"Do2", "Do3", "Do4", "Do2b", "Do3b"},
 }
 
 // ChannelSystems are the systems of C19.
-var ChannelSystems = []string{"fmap", "dup", "joincc", "joinsc", "joinsel", "pipeline"}
+var ChannelSystems = []string{"fmap", "fmapch", "dup", "joincc", "joinsc", "joinsel", "pipeline"}
 
 func inputsOf(sys, variant string, r *rand.Rand, maxIn int) int {
 	switch sys {
-	case "fmap", "dup":
+	case "fmap", "dup", "fmapch":
 		return 1
 	case "joinsel":
 		if variant == "JoinV3" {
@@ -139,6 +151,9 @@ func RandomConfig(sys string, r *rand.Rand, maxIn, maxItems, maxCap int) Config 
 	if sys == "do" {
 		c.N = 2 + r.Intn(3)
 		c.Variant = "Do" + strconv.Itoa(c.N)
+		if c.N < 4 && r.Intn(2) == 0 {
+			c.Variant += "b"
+		}
 		c.Errs = make([]int, c.N)
 		for i := range c.Errs {
 			if r.Intn(2) == 0 {
@@ -168,6 +183,9 @@ func RandomConfig(sys string, r *rand.Rand, maxIn, maxItems, maxCap int) Config 
 	if sys == "joinsc" && n == 0 {
 		c.NilSlice = r.Intn(2) == 0
 	}
+	if sys == "fmapch" {
+		c = FmapChItems(c, r.Intn(1<<len(c.Items[0])))
+	}
 	return c
 }
 
@@ -179,7 +197,7 @@ func SmallConfigs(sys string, inputs, items, maxCap int) []Config {
 	for _, variant := range Variants[sys] {
 		n := inputs
 		switch sys {
-		case "fmap", "dup":
+		case "fmap", "dup", "fmapch":
 			n = 1
 		case "joinsel":
 			n = 2
@@ -241,16 +259,22 @@ func DoConfigs(n int) []Config {
 	if n >= 4 {
 		pats = append(pats, [][2]int{{0, 1}, {2, 3}, {3, 0}, {1, 2}})
 	}
+	variants := []string{"Do" + strconv.Itoa(n)}
+	if n < 4 {
+		variants = append(variants, "Do"+strconv.Itoa(n)+"b") // the Do of the package whose first Do has another arity
+	}
 	var out []Config
-	for mask := 0; mask < 1<<n; mask++ {
-		for _, p := range pats {
-			c := Config{Sys: "do", Variant: "Do" + strconv.Itoa(n), N: n, Errs: make([]int, n), Pairs: p}
-			for i := 0; i < n; i++ {
-				if mask&(1<<i) != 0 {
-					c.Errs[i] = 1 + i
+	for _, variant := range variants {
+		for mask := 0; mask < 1<<n; mask++ {
+			for _, p := range pats {
+				c := Config{Sys: "do", Variant: variant, N: n, Errs: make([]int, n), Pairs: p}
+				for i := 0; i < n; i++ {
+					if mask&(1<<i) != 0 {
+						c.Errs[i] = 1 + i
+					}
 				}
+				out = append(out, c)
 			}
-			out = append(out, c)
 		}
 	}
 	return out
@@ -261,7 +285,7 @@ func DoConfigs(n int) []Config {
 // is closed without ever carrying a channel), inputs without items for fmap, dup and the select form.
 func ZeroConfigs(sys string) []Config {
 	switch sys {
-	case "fmap", "dup":
+	case "fmap", "dup", "fmapch":
 		return SmallConfigs(sys, 1, 0, 2)
 	case "joinsel":
 		return append(SmallConfigs(sys, 2, 0, 1), SmallConfigs(sys, 3, 0, 1)...)
@@ -272,6 +296,24 @@ func ZeroConfigs(sys string) []Config {
 // PrefillConfigs are the "all set up before the call" configurations for the real-runtime runs.
 func PrefillConfigs(sys string) []Config {
 	var out []Config
+	if sys == "fmap" || sys == "dup" || sys == "fmapch" {
+		// one input of capacity 2..4, partly or completely filled and closed before the call
+		for _, variant := range Variants[sys] {
+			for cp := 2; cp <= 4; cp++ {
+				for n := 1; n <= cp+1; n++ {
+					c := Config{Sys: sys, Variant: variant, Caps: []int{cp}, Items: mkItems([]int{n}), Prefill: true}
+					if sys == "fmapch" {
+						c = FmapChItems(c, (n*5+cp)%(1<<n))
+					}
+					out = append(out, c)
+				}
+			}
+		}
+		return out
+	}
+	if sys != "joincc" && sys != "pipeline" {
+		return out
+	}
 	for _, variant := range Variants[sys] {
 		for n := 1; n <= 4; n++ {
 			for items := 1; items <= 3; items++ {
@@ -282,6 +324,34 @@ func PrefillConfigs(sys string) []Config {
 					caps[i] = counts[i]
 				}
 				out = append(out, Config{Sys: sys, Variant: variant, OCap: n, Caps: caps, Items: mkItems(counts), Prefill: true})
+			}
+		}
+	}
+	return out
+}
+
+// FmapChItems turns the items of an fmapch configuration into the tags 0,1,2,… with every item whose
+// position is in nilMask (bit j) replaced by NilFrom+j (the function returns nil for it).
+func FmapChItems(c Config, nilMask int) Config {
+	its := make([]int, len(c.Items[0]))
+	for j := range its {
+		its[j] = j
+		if nilMask&(1<<j) != 0 {
+			its[j] = NilFrom + j
+		}
+	}
+	c.Items = [][]int{its}
+	return c
+}
+
+// FmapChConfigs: every nil pattern for up to `items` items and capacities 0..maxCap.
+func FmapChConfigs(items, maxCap int) []Config {
+	var out []Config
+	for n := 0; n <= items; n++ {
+		for cp := 0; cp <= maxCap; cp++ {
+			for mask := 0; mask < 1<<n; mask++ {
+				c := Config{Sys: "fmapch", Variant: "FmapCh", Caps: []int{cp}, Items: [][]int{make([]int, n)}}
+				out = append(out, FmapChItems(c, mask))
 			}
 		}
 	}
